@@ -380,7 +380,54 @@ def op_cms_envelop(ctx, st):
     return r == 1, raw, raw           # the SM2-wrapped key (C1) is the ephemeral part
 
 
+def op_x509_req_sign(ctx, st):
+    lib, L = ctx.lib, ctx.L
+    nm = ctx.inbuf(st['name'])
+    out = ctx.buf(2048, fill=0xA5)
+    p = ctypes.c_void_p(out.ptr)
+    ol = ctypes.c_size_t(0)
+    r = lib.x509_req_sign_to_der(0, nm, len(st['name']), st['key'], nm, 0, L['OID_sm2sign_with_sm3'], st['key'], R.DEFAULT_ID, 16,
+                                 ctypes.byref(p), ctypes.byref(ol))
+    raw = out.raw(min(ol.value, 2048)) if r == 1 else b''
+    nm.free()
+    out.free()
+    return r == 1, raw, raw[-80:]
+
+
+def op_cms_sign_and_envelop(ctx, st):
+    lib, L = ctx.lib, ctx.L
+    cert = ctx.inbuf(st['cert'])
+
+    class Signer(ctypes.Structure):
+        _fields_ = [('certs', ctypes.c_void_p), ('certs_len', ctypes.c_size_t), ('sign_key', ctypes.c_void_p)]
+    sg = Signer(cert.ptr, len(st['cert']), st['key'].ptr)
+    key = ctx.inbuf(bytes(range(16)))
+    iv = ctx.inbuf(bytes(16))
+    content = ctx.inbuf(b'content to be signed and enveloped')
+    out = ctx.buf(8192, fill=0xA5)
+    ol = ctypes.c_size_t(8192)
+    r = lib.cms_sign_and_envelop(out, ctypes.byref(ol), ctypes.byref(sg), 1, cert, len(st['cert']), L['OID_sm4_cbc'], key, 16, iv, 16,
+                                 L['OID_cms_data'], content, 34, None, 0, None, 0, None, 0)
+    raw = out.raw(min(ol.value, 8192)) if r == 1 else b''
+    for b in (cert, key, iv, content, out):
+        b.free()
+    return r == 1, raw, raw
+
+
+def op_sm9_key_info_encrypt(ctx, st):
+    out = ctx.buf(2048, fill=0xA5)
+    p = ctypes.c_void_p(out.ptr)
+    ol = ctypes.c_size_t(0)
+    r = ctx.lib.sm9_sign_master_key_info_encrypt_to_der(st['msk'], b'password', ctypes.byref(p), ctypes.byref(ol))
+    raw = out.raw(min(ol.value, 2048)) if r == 1 else b''
+    out.free()
+    return r == 1, raw, raw[:90]      # header carries salt and IV
+
+
 OPS = {
+    'x509_req_sign_to_der': {'setup': _x509_state, 'call': op_x509_req_sign, 'repeat_q': 12, 'repeat_t': 100},
+    'cms_sign_and_envelop': {'setup': _x509_state, 'call': op_cms_sign_and_envelop, 'repeat_q': 12, 'repeat_t': 100},
+    'sm9_sign_master_key_info_encrypt_to_der': {'setup': _sm9_sign_state, 'call': op_sm9_key_info_encrypt, 'repeat_q': 4, 'repeat_t': 20},
     'x509_cert_sign_to_der': {'setup': _x509_state, 'call': op_x509_cert_sign, 'repeat_q': 12, 'repeat_t': 100},
     'cms_sign': {'setup': _x509_state, 'call': op_cms_sign, 'repeat_q': 12, 'repeat_t': 100},
     'cms_envelop': {'setup': _x509_state, 'call': op_cms_envelop, 'repeat_q': 12, 'repeat_t': 100},
